@@ -38,6 +38,32 @@ def runs(p):
     return refdiff(q)
 
 
+def _calibrate(W, S, DENS, rr):
+    """the one-step form presets the store through knowledge of roll's state representation (state 0 = item counter, state 1 = ring of window starts, slot
+    (start / stride) mod density).  Before judging, that knowledge is checked against the real operator run concretely for rr items from an empty key; if the
+    representation has changed the obligation is inconclusive, never a violation."""
+    import rxsci as rs
+    from rx.subject import Subject
+    from vp.harness import Inconclusive
+    try:
+        store = rs.state.StoreManager(store_factory=rs.state.MemoryStore)
+        src = Subject()
+        src.pipe(rs.cast_as_mux_observable(), rs.state.with_store(store, [rs.data.roll(W, S, [rs.ops.identity()])])).subscribe(on_error=lambda e: None)
+        src.on_next(rs.OnCreateMux((0,), store=store))
+        for j in range(rr):
+            src.on_next(rs.OnNextMux((0,), j, store=store))
+        ok = store.get_state(0, (0,)) == rr
+        for c in range(0, rr, S):
+            open_ = c < rr and c + W > rr
+            got = store.get_state(1, ((c // S) % DENS, (0,)))
+            if open_ and got != c:
+                ok = False
+    except Exception:
+        ok = False
+    if not ok:
+        raise Inconclusive('roll no longer keeps (counter, ring of window starts) the way this one-step harness presets it')
+
+
 def step(p):
     """One event on roll_mux from the state the invariant prescribes for an arbitrary item counter n = q*P + r
     (P = stride * ceil(window/stride) = one turn of the slot ring; q >= 0 symbolic and unbounded, r concretised by cascade):
@@ -76,6 +102,7 @@ def step(p):
                 store.set_state(1, (slot, (0,)), start)
                 exp_open.append((slot, start))
         del events[:]
+        _calibrate(W, S, DENS, rr)
         if event == 'next':
             src.on_next(rs.OnNextMux((0,), x, store=store))
             exp = []
